@@ -527,11 +527,9 @@ func (c *compiler) evalIdentifier(node *ast.Identifier) (interface{}, error) {
 
 func (c *compiler) evalInfixExpression(node *ast.InfixExpression) (interface{}, error) {
 	lres, err := c.evalExpression(node.Left)
-	if err != nil &&
-		node.Operator != "==" && node.Operator != "!=" &&
-		node.Operator != "||" && node.Operator != "&&" {
+	if err != nil && !toleratedOperandError(node.Operator, err) {
 		return nil, err
-	} // nil lres is acceptable only for '==', '!=', and logical operators
+	} // an unknown identifier counts as nil only for '==', '!=', and logical operators
 
 	switch { // fast return
 	case node.Operator == "&&" && !c.isTruthy(lres):
@@ -541,11 +539,9 @@ func (c *compiler) evalInfixExpression(node *ast.InfixExpression) (interface{}, 
 	}
 
 	rres, err := c.evalExpression(node.Right)
-	if err != nil &&
-		node.Operator != "==" && node.Operator != "!=" &&
-		node.Operator != "||" && node.Operator != "&&" {
+	if err != nil && !toleratedOperandError(node.Operator, err) {
 		return nil, err
-	} // nil rres is acceptable only for '==', '!=', and logical operators
+	} // an unknown identifier counts as nil only for '==', '!=', and logical operators
 
 	switch node.Operator {
 	case "&&", "||":
@@ -580,6 +576,21 @@ func (c *compiler) evalInfixExpression(node *ast.InfixExpression) (interface{}, 
 	}
 
 	return nil, fmt.Errorf("unable to operate (%s) on %T and %T ", node.Operator, lres, rres)
+}
+
+// toleratedOperandError reports whether an operand's evaluation error may be
+// ignored: only an unknown identifier, and only under ==, !=, && and ||.
+func toleratedOperandError(operator string, err error) bool {
+	if _, ok := err.(*ErrUnknownIdentifier); !ok {
+		return false
+	}
+
+	switch operator {
+	case "==", "!=", "||", "&&":
+		return true
+	}
+
+	return false
 }
 
 func (c *compiler) arrayOperator(l interface{}, r interface{}, op string) (interface{}, error) {
